@@ -128,7 +128,11 @@ def compare_components(rule: dict, decoded: dict, expected: list, text: str, wir
                 raise Violation('encode:prefix-offset', f'component {ctype}: offset {comp["offset"]} for {offset}: {short}')
             if comp['prefix'] != canon:
                 raise Violation('encode:prefix', f'component {ctype}: {comp["prefix"]} for {canon}: {short}')
-            if rule['afi'] == 2 and comp['padding']:
+            if rule['afi'] == 2 and comp['padding'] and offset:
+                # the listed root cause again (with an offset the address is written from bit 0, so what follows the length - offset
+                # pattern bits is address, not zero padding): the pattern happened to agree, the trailing bits give it away
+                deferred.append(Violation('encode:ipv6-offset-pattern', f'component {ctype}: <length {_bits}, offset {offset}> is followed by address bits, not by a zero-padded pattern: {short}'))
+            elif rule['afi'] == 2 and comp['padding']:
                 deferred.append(Violation('encode:ipv6-prefix-padding', f'component {ctype}: bits after the prefix length are not zero (RFC 8956 3.1): {short}'))
             continue
         terms = comp['terms']
